@@ -126,6 +126,35 @@ def main():
             if -(r + 1) <= d <= r:
                 run.corr("norm_out", [d, r], d if d >= 0 else d + r + 1, a[1])
 
+
+    # ------------------------------------------------------------------ 2b. memoisation of _add_batch_dim: keyed by (in_dim, vmap_level), only on locked tensordicts
+    from torch._C._functorch import maybe_current_level
+    for it in range(40 if quick else 400):
+        b = rng.choice([(2, 3), (2, 3, 2), (3, 2)])
+        locked = rng.random() < 0.7
+        td = G.make_td(b, locked=locked)
+        plan = [[(rng.choice([1, 1, 2]), rng.randrange(len(b))) for _ in range(rng.randint(1, 4))] for _ in range(rng.randint(1, 3))]   # per vmap call: (depth, in_dim)
+        got, reqs_m = [], []
+        def record(depth, i):
+            L = maybe_current_level()
+            got.append(td._add_batch_dim(in_dim=i, vmap_level=L))
+            reqs_m.append([i, L])
+        for call in plan:
+            def outer(x, call=call):
+                for depth, i in call:
+                    if depth == 1:
+                        record(1, i)
+                    else:
+                        torch.vmap(lambda y, i=i: (record(2, i), y)[1])(x)
+                return x
+            with time_limit(30):
+                torch.vmap(outer)(torch.zeros(2, 2))
+        impl = [[k for k, p in enumerate(got) if p is o][0] for o in got]
+        model = parse_sx(drv.ask(sx("c19.memo", locked, *reqs_m)))
+        run.case(("memo", it, locked, str(reqs_m)), nontrivial=locked and len(reqs_m) > 1)
+        run.count("memo.locked", locked)
+        run.corr("memo(keying)", {"batch": list(b), "locked": locked, "requests": reqs_m}, impl, model)
+
     # ------------------------------------------------------------------ 3. vmap on tensordicts: modelled domain
     cases = []
     # corpus first
@@ -195,6 +224,132 @@ def main():
     for (idx, _), la in zip(reqs_loop, loop_answers):
         run.corr("loop(model spec vs model code path)", meta[idx], G.canon_model(parse_sx(answers[idx])), G.canon_model(parse_sx(la)))
     run.sample({"stream": "vmap", "case": meta[len(corpus) + 3], "model": answers[len(corpus) + 3][:300]})
+
+
+
+    # ------------------------------------------------------------------ 3c. two arguments, in_dims None for one of them: f(a, b) = prog(a.apply(add, b))
+    reqs, impl, meta = [], [], []
+    for _ in range(250 if quick else 2500):
+        b1 = rng.choice(BATCHES)
+        r = len(b1)
+        i1 = rng.randrange(-r, r)
+        inner = list(b1[:i1 % r] + b1[i1 % r + 1:])
+        B = b1[i1 % r]
+        kind = rng.choice(["both", "second_none", "first_none"])
+        if kind == "both":
+            j = rng.randrange(0, len(inner) + 1)
+            b2 = inner[:j] + [B] + inner[j:]
+            i2 = j - len(b2) if rng.random() < 0.4 else j
+            ba, ia, bb, ib = b1, i1, b2, i2
+        elif kind == "second_none":
+            ba, ia, bb, ib = b1, i1, inner, None
+        else:
+            ba, ia, bb, ib = inner, None, b1, i1
+        prog, (bo, _) = G.gen_prog(rng, inner, G.KEYS, depth=0, maxlen=2, allow_vmap=False)
+        ro = len(bo)
+        o = rng.randrange(-(ro + 1), ro + 1)
+        f = lambda t, u, prog=prog: G.run_real(prog, t.apply(lambda x, y: x + y, u))
+        ta, tb = G.make_td(ba), G.make_td(bb)
+        case = {"batch_a": list(ba), "batch_b": list(bb), "in_dims": [ia, ib], "out_dim": o, "prog": G.sx_prog(prog)}
+        def go():
+            with time_limit(30):
+                return torch.vmap(f, in_dims=(ia, ib), out_dims=o)(ta, tb)
+        got = attempt(go)
+        def ref_fn():
+            with time_limit(30):
+                outs = [f(ta if ia is None else ta.unbind(ia % len(ba))[k], tb if ib is None else tb.unbind(ib % len(bb))[k]) for k in range(B)]
+                rank_out = outs[0].batch_dims
+                if not (-(rank_out + 1) <= o <= rank_out):
+                    raise IndexError("out_dim")
+                return torch.stack(outs, o if o >= 0 else o + rank_out + 1)
+        ref = attempt(ref_fn)
+        run.case(("vmap2", str(case)), nontrivial=got[0] == "ok")
+        run.count("vmap2.kind", kind)
+        strip = lambda c: [c[0]] + [x for x in c[1:] if x[0] != "names"] if c[0] == "ok" else c
+        if strip(got) != strip(ref):
+            run.oracle_fail("vmap2_vs_loop", case, f"vmap={str(got)[:160]} loop={str(ref)[:160]}", fingerprint="vmap2|" + kind)
+        else:
+            run.oracle_ok("vmap2_vs_loop")
+        reqs.append(sx("c19.vmap2", td_sx(ba, None), td_sx(bb, None), ia, ib, o, G.sx_prog(prog)))
+        impl.append(got)
+        meta.append(case)
+    for case, got, a in zip(meta, impl, ask_chunked(drv, reqs)):
+        run.corr("vmap2(code path)", case, got, G.canon_model(parse_sx(a)))
+
+
+    # ------------------------------------------------------------------ 3d. tuple / mixed outputs with per-output out_dims: f(td) = (prog(td), prog(td)[key])
+    reqs1, reqs2, impl, meta = [], [], [], []
+    for _ in range(200 if quick else 2000):
+        b = rng.choice(BATCHES)
+        r = len(b)
+        i = rng.randrange(-r, r)
+        inner = list(b[:i % r] + b[i % r + 1:])
+        prog, (bo, ks) = G.gen_prog(rng, inner, G.KEYS, depth=0, maxlen=3, allow_vmap=False)
+        key = rng.choice(ks)
+        ro = len(bo)
+        o1 = rng.randrange(-(ro + 1), ro + 1)
+        o2 = rng.randrange(0, ro + 1)          # the tensor output: positions inside its batch dims (leaf rank may be larger)
+        def f(t, prog=prog, key=key):
+            out = G.run_real(prog, t)
+            return out, out.get(G.rk(out, key))
+        td = G.make_td(b)
+        case = {"batch": list(b), "in_dim": i, "out_dims": [o1, o2], "prog": G.sx_prog(prog), "key": key}
+        def go():
+            with time_limit(30):
+                return torch.vmap(f, in_dims=i, out_dims=(o1, o2))(td)
+        got = attempt(go)
+        run.case(("vmap_tuple", str(case)), nontrivial=got[0] == "seq")
+        run.count("tuple.outcome", got[0])
+        reqs1.append(sx("c19.vmap", td_sx(b, None), i, o1, G.sx_prog(prog)))
+        reqs2.append(sx("c19.vmap", td_sx(b, None), i, o2, G.sx_prog(prog + [("select", key)])))
+        impl.append(got)
+        meta.append(case)
+    a1 = ask_chunked(drv, reqs1)
+    a2 = ask_chunked(drv, reqs2)
+    for case, got, x1, x2 in zip(meta, impl, a1, a2):
+        m1, m2 = G.canon_model(parse_sx(x1)), G.canon_model(parse_sx(x2))
+        if m1[0] == "ok" and m2[0] == "ok":
+            leaf = m2[3][1]
+            model = ["seq", m1, ["t", leaf[1], leaf[2]]]
+        else:
+            model = ["err"]
+        run.corr("vmap_tuple(code path)", case, got, model)
+
+    # ------------------------------------------------------------------ 3b. lazily stacked tensordicts: the lazy code path of the model vs the real library
+    lz_cases = []
+    for b in [(2,), (2, 3), (3, 2), (2, 3, 2), (2, 1, 3)]:
+        r = len(b)
+        for sd in range(r):
+            for i in range(-r, r):
+                for o in range(-r, r):
+                    lz_cases.append((b, sd, i, o, []))
+    for _ in range(150 if quick else 1500):
+        b = rng.choice([(2,), (2, 3), (3, 2), (2, 3, 2), (2, 1, 3)])
+        r = len(b)
+        prog = [(rng.choice(["mul2", "add1", "neg", "clone"]),) for _ in range(rng.randint(1, 3))]
+        lz_cases.append((b, rng.randrange(r), rng.randrange(-r, r), rng.randrange(-r, r), prog))
+    reqs, impl, meta = [], [], []
+    for (b, sd, i, o, prog) in lz_cases:
+        td = G.make_td(b, lazy=True, stack_dim=sd)
+        case = {"batch": list(b), "stack_dim": sd, "in_dim": i, "out_dim": o, "prog": G.sx_prog(prog)}
+        got = attempt(lambda: real_vmap(prog, td, i, o))
+        ref = attempt(lambda: real_loop(prog, G.make_td(b, lazy=True, stack_dim=sd), i, o))
+        derived = (i % len(b) == sd) and bool(prog)
+        run.case(("vmap_lazy", str(case)), nontrivial=got[0] == "ok")
+        run.count("lazy.path", "hidden-stack" if i % len(b) == sd else "member-wise")
+        run.count("lazy.outcome", got[0])
+        strip = lambda c: [c[0]] + [x for x in c[1:] if x[0] != "names"] if c[0] == "ok" else c
+        if strip(got) != strip(ref):
+            run.oracle_fail("ext.lazy", case, f"vmap={str(got)[:160]} loop={str(ref)[:160]}",
+                            fingerprint=("value" if got[0] == ref[0] else "err_mismatch") + ("|lazy_stackdim|" if derived else "|lazy_other|") + ",".join(p[0] for p in prog))
+        else:
+            run.oracle_ok("ext.lazy")
+        reqs.append(sx("c19.vmap_lazy", td_sx(b, None), sd, i, o, G.sx_prog(prog)))
+        impl.append(got)
+        meta.append(case)
+    for case, got, a in zip(meta, impl, ask_chunked(drv, reqs)):
+        strip = lambda c: [c[0]] + [x for x in c[1:] if x[0] != "names"] if c[0] == "ok" else c
+        run.corr("vmap_lazy(code path)", case, strip(got), strip(G.canon_model(parse_sx(a))))
 
     # ------------------------------------------------------------------ 4. extended domain (oracle only)
     import c19_extended
